@@ -361,6 +361,8 @@ def tasks(tier):
             ts.append(("expr", "d3", c, 32))
     for first in range(len(HOPS)):
         ts.append(("history", first, 3 if tier == "quick" else 4))
+    ts.append(("history_long",))
+    ts.append(("expr_long",))
     for t in range(len(TOKENS)):
         ts.append(("tokens", t))
     ts.append(("tokens_multi",))
@@ -403,6 +405,27 @@ def run_task(task, acc):
             for d in range(1, depth + 1):
                 for rest in itertools.product(range(len(HOPS)), repeat=d - 1):
                     yield dict(kind="history", ops=[first, *rest])
+        run_cases(acc, gen(), check_case)
+    elif kind == "history_long":
+        def gen():
+            n = len(HOPS)
+            for stride in (1, 3, 5, 7, 11):
+                for length in (40, 200):
+                    yield dict(kind="history", ops=[(i * stride + i // n) % n for i in range(length)])
+        run_cases(acc, gen(), check_case)
+    elif kind == "expr_long":
+        def gen():
+            # long left-associative chains: ((((a op b) op c) ...) with 60 / 400 terms
+            for nterms in (60, 400):
+                for ops in (("+", "-"), ("*", "/"), ("-", "/", "+", "*")):
+                    t = ("leaf", "mean")
+                    for i in range(nterms):
+                        leaf = ("leaf", ("2", "0.5", "std", "max")[i % 4])
+                        t = ("bin", ops[i % len(ops)], t, leaf)
+                    for s in range(len(STATS)):
+                        yield dict(kind="expr", fx=render(t)[0], tree=t, stats=s)
+        import sys
+        sys.setrecursionlimit(10000)
         run_cases(acc, gen(), check_case)
     elif kind == "tokens":
         first = TOKENS[task[1]]
